@@ -3,7 +3,7 @@
    the sources (Model.Build.gen_bfacts), under decidable obligations on that record closed by vm_compute. *)
 From Coq Require Import List ZArith NArith Bool.
 From SudachiVerif Require Import Model.GuardLang Model.Params Model.Build Proofs.GuardProofs Proofs.BuildProofs.
-From SudachiVerif Require Import Model.BuildHistory Proofs.BuildHistoryProofs.
+From SudachiVerif Require Import Model.BuildHistory Proofs.BuildHistoryProofs Generated.FieldOrder.
 Import ListNotations.
 Open Scope Z_scope.
 
@@ -18,6 +18,15 @@ Proof. vm_compute. reflexivity. Qed.
 (* every panic!/todo!/unwrap/expect/assert!/index site of the anchored builder files is one the model accounts for *)
 Fact C06_panic_sites_classified : panic_sites_ok = true.
 Proof. vm_compute. reflexivity. Qed.
+
+(* the length prefix of every string the compiler writes (Utf16Writer::write_len: one byte below short_below, else two bytes
+   with the high bit of the first one set) is read back as the same number by string_length_parser (a first byte from
+   long_from on announces a second one): every one-byte length is below the reader's threshold, every two-byte length fits
+   15 bits.  The codec itself is C05's; here it is the part of `success => the dictionary loads` that the run ties with
+   strings of 126 .. 32767 code units *)
+Fact C06_length_prefix_agrees_with_reader :
+  (FieldOrder.short_below <= FieldOrder.long_from)%N /\ (FieldOrder.long_from = 128)%N /\ (FieldOrder.len_max = 32767)%N.
+Proof. vm_compute. repeat split; discriminate. Qed.
 
 (* for any matrix text and any rows, compilation ends in success or an error value, never a panic *)
 Theorem C06_compile_never_panics : forall inp, build inp <> Panic.
